@@ -39,7 +39,7 @@ INVALID = {
     'enum': ['bogus', '', 'SATURATE', 1, None, 3.5, ['wrap']],
     'fxp': ['x', 1, 2.5, [1], object()],
     'n_word_max': [0, -1, 3.5, '64', None],
-    'max_error': [0, -1.0e-3],
+    'max_error': [0, -1.0e-3, float('nan'), np.float64('nan'), -float('inf')],
 }
 
 
